@@ -47,6 +47,7 @@ func VH_C03_write_sends_every_byte_once_in_order() {
 		total += len(pt)
 	}
 	verifAssert(total == n, "C03: the packets carry exactly the bytes written (nothing skipped, nothing repeated)")
+
 	if n > 0 {
 		verifAssert(found, "C03: every written byte is carried by some packet")
 	}
